@@ -199,8 +199,10 @@ def lineage_pass(evs):
         prev = cur
 
 
-def write_cfg(work, name, spec="Spec", invariants=(), constants=None, deadlock=False, props=()):
+def write_cfg(work, name, spec="Spec", invariants=(), constants=None, deadlock=False, props=(), view=None):
     lines = ["SPECIFICATION %s" % spec] if spec else ["INIT Init", "NEXT Next"]
+    if view:
+        lines.append("VIEW %s" % view)
     for i in invariants:
         lines.append("INVARIANT %s" % i)
     for p in props:
@@ -330,12 +332,19 @@ MC = {
     "MC_SW": (["GotohIsBrute", "Symmetric", "TablesOK"], {"MaxLen": 2}, {"MaxLen": 3}),
     "MC_Clean": (["CleanPartition", "EndsMaximal", "DedupLemmas", "MaskFrame"], {"Rows": 2, "Cols": 3}, {"Rows": 3, "Cols": 3}),
     "MC_Transforms": (["Involution", "KeepsShape", "CaseIdem", "CaseOnly", "UngapKept", "ObjLevel"], {"MaxLen": 2}, {"MaxLen": 3}),
+    # the heap machine as a state machine: every heap reachable in MaxDepth operations (900 heaps at depth 2 in seconds,
+    # 158 599 at depth 3 in 3.5 minutes with 8 workers)
+    "MC_Heap": (["Rectangular", "LengthCached", "Distinct", "Policies", "RejectLeaves", "ReadOnly", "NewAreFresh", "AddRejects"],
+                {"MaxDepth": 2, "MaxObjs": 4, "MaxRows": 4, "MaxWidth": 6, "MaxName": 4},
+                {"MaxDepth": 3, "MaxObjs": 4, "MaxRows": 4, "MaxWidth": 6, "MaxName": 4}),
 }
+MC_VIEW = {"MC_Heap": "View"}
 
 
 def run_mc(work, v, module, tier, timeout=1500):
     invs, cq, ct = MC[module]
-    cfg = write_cfg(work, "%s_%s.cfg" % (module, tier), spec=None, invariants=invs, constants=cq if tier == "quick" else ct)
+    cfg = write_cfg(work, "%s_%s.cfg" % (module, tier), spec=None, invariants=invs, constants=cq if tier == "quick" else ct,
+                    view=MC_VIEW.get(module))
     v.add_mc(vf.tlc_mc(work, module, cfg, workers=8, timeout=timeout), "mc:" + module)
 
 
@@ -405,7 +414,7 @@ def replay(work, v, prop, path):
 SIMPLE_REPLAY = {}
 
 PIPELINES["C01"] = heap_pipeline("C01", quick=dict(depth=1, sim=(25, 4), rand=250),
-                                 thorough=dict(depth=2, sim=(400, 6), rand=4000))
+                                 thorough=dict(depth=2, sim=(400, 6), rand=4000), mc=["MC_Heap"])
 def _c04(work, v, tier, seed):
     heap_pipeline("C04", quick=dict(depth=1, sim=(6, 3), rand=250), thorough=dict(depth=2, sim=(100, 5), rand=4000), mc=["MC_Sites"])(work, v, tier, seed)
     heap_gen_validate(work, v, "C04b", 3)      # extraction / concatenation onto the extract / further extraction
